@@ -382,6 +382,20 @@ def gen_C03(rng, tier):
         for name in ["sum2", "prod2", "diff", "quot"]:
             L.append("st %s f %s %s" % (name, a, b))
         L.append("st exp %s %s" % (a, b))
+        # an operand that leaves the VALUE unchanged (x^1, x*1, x+0, x-0, x/1 …) still contributes its timestamp: a fast path that
+        # returns the other operand as it is loses the newer stamp
+        for ident in ("3f800000", "00000000", "80000000"):
+            ia, ib = out_some(t1, ident), out_some(t2, ident)
+            for name in ["sum2", "prod2", "diff", "quot"]:
+                L.append("st %s f %s %s" % (name, a, ib))
+                L.append("st %s f %s %s" % (name, ia, b))
+            L.append("st exp %s %s" % (a, ib))
+            L.append("st exp %s %s" % (ia, b))
+            L.append("st sum f 3 %s %s %s" % (a, ib, out_some(min(t1, t2), rand_f(rng))))
+            L.append("st prod f 3 %s %s %s" % (ia, b, out_some(min(t1, t2), rand_f(rng))))
+            for op in ("add", "sub", "mul", "div"):
+                L.append("d %s f %d@%s %d@%s" % (op, t1, rand_f(rng), t2, ident))
+                L.append("d %s f %d@%s %d@%s" % (op, t1, ident, t2, rand_f(rng)))
         L.append("st sum f 2 %s %s" % (a, b))
         L.append("st prod f 2 %s %s" % (a, b))
         L.append("st latest f 2 %s %s" % (a, b))
